@@ -30,7 +30,7 @@ ASSUMPTIONS = [
     "SHA-1/2 and HMAC references are hashlib/hmac from the standard library (a different binding than `cryptography`)",
     "SB3.1 KDF layout (12-byte LE constant, 8 zero bytes, rights<<6, mode 0x01/0x10, 0, key option 0x20/0x21, BE length, BE iteration) is taken from the format description and cross-checked by C05's calibration on golden files",
 ]
-FLOORS = {"default_iv": 0.02, "nonaligned": 0.05}
+FLOORS = {"default_iv": 0.005, "nonaligned": 0.03}
 
 
 def _msg():
